@@ -790,7 +790,7 @@ func c10ExtentCursor(w *World, r *Report) {
 				"the device offset of this transfer does not depend on anything the transfer's own byte count updates (loop accumulator or cursor field stored in the loop): it is computed from a position taken before the loop, which is right for the first extent only")
 		}
 		if k == 0 {
-			r.Fail("C10-f", fnName(fn), "extent loop", w.relFile(fn.Pos()), "no device transfer inside a loop found in ext4 File."+mn)
+			r.Undecided("C10-f", fnName(fn), "extent loop", w.relFile(fn.Pos()), "no device transfer inside a loop found in ext4 File."+mn+" (the loop may have moved into a helper this rule does not follow)")
 		}
 	}
 }
